@@ -3,6 +3,7 @@ import InfluxQL.Model.PrintStmt
 import InfluxQL.Lemmas.Digits
 import InfluxQL.Lemmas.ParserTok
 import InfluxQL.Lemmas.StmtPieces
+import InfluxQL.Lemmas.StmtExprPieces
 import InfluxQL.Lemmas.IntLit
 import InfluxQL.Lemmas.RegexRoundTrip
 import InfluxQL.Lemmas.NumberRoundTrip
@@ -1666,6 +1667,516 @@ theorem dropRetentionPolicy_statement_print_parse (fuel : Nat) (s : PState) (nam
   obtain ⟨s', h2, b2⟩ := nameOnDb_print_parse fuel .parseDropRetentionPolicyStatement .dropRetentionPolicy
     (by simp [nameOnDbHandlers]) s1 name db k hex1 hex2 hk b1
   exact ⟨s', by rw [h1]; exact h2, b2⟩
+
+/-! ## statement families with expressions
+
+The families below contain a condition, a source list or fields. Their theorems have the shape of
+the ones above with two differences. (1) `ParseExpr` is modelled with a fuel argument, so the
+conclusion is a weakest precondition with the error alternative "out of fuel": the handler returns
+exactly the printed statement and stands before `k`, or the fuel given was too small (never the case
+at `fuelFor text`: `C04.parseStatement_fuel_suffices`; the non-vacuity examples run the handler in
+the kernel). (2) The parser ends `RT.Stand s' k`: before `k` with the token scanned there pushed
+back (how `ParseExpr` and the source parser leave it). The continuation is described by its first
+significant token: `Follow k stop` — `k` is the end of input, or starts with `)` / `,` / a blank and
+a token, and its first token is no binary operator and none of `stop` (the tokens that would
+continue the statement). Expressions are those of C03's class `Printable` (`RT.rtOK false`). -/
+
+/-! ### DELETE, DROP SERIES -/
+
+/-- What DELETE / DROP SERIES print after their keywords. -/
+def deleteLikeText (names : List Str) (c : Option Expr) : Str := fromText names ++ whereText c
+
+theorem deleteLike_print_partial (names : List Str) (c : Option Expr) (h : ∀ m ∈ names, m ≠ []) :
+    (Statement.deleteSeries (names.map nameSrc) c).print = tx "DELETE" ++ deleteLikeText names c ∧
+    (Statement.dropSeries (names.map nameSrc) c).print = tx "DROP SERIES" ++ deleteLikeText names c := by
+  have p1 : (Statement.deleteSeries (names.map nameSrc) c).print =
+      tx "DELETE" ++ clauseFrom (names.map nameSrc) ++ clauseWhere c := rfl
+  have p2 : (Statement.dropSeries (names.map nameSrc) c).print =
+      tx "DROP SERIES" ++ clauseFrom (names.map nameSrc) ++ clauseWhere c := rfl
+  rw [p1, p2, clauseFrom_names names h, clauseWhere_eq]
+  simp only [deleteLikeText, List.append_assoc, and_self]
+
+theorem parseDeleteLike_print (fuel : Nat) (checkRP : Bool) (s : PState) (names : List Str) (c : Option Expr) (k : Str)
+    (hex : ∀ m ∈ names, Expressible m) (hc : CondOK c) (hne : ¬ (c = none ∧ names = []))
+    (hk : Follow k [.FROM, .COMMA, .WHERE]) (hs : s.Before (deleteLikeText names c ++ k)) :
+    wp (parseDeleteLike fuel checkRP) s (fun r s' => r = (names.map nameSrc, c) ∧ RT.Stand s' k) (· = .fuel) := by
+  have hkw : Follow (whereText c ++ k) [.FROM, .COMMA] :=
+    Follow.opt (kwText_where c) (by decide +kernel) rfl (by decide) (hk.mono (by simp))
+  unfold deleteLikeText at hs
+  rw [List.append_assoc] at hs
+  unfold parseDeleteLike
+  cases names with
+  | nil =>
+    obtain ⟨T, hT, hneT⟩ := hkw.starts (t := .FROM) (by simp)
+    obtain ⟨lx, s1, h1, t1, st1, _⟩ := RT.scanIW_starts s _ T (by simpa [fromText] using hs.stand) hT
+    have hnf : ¬ lx.tok = .FROM := by rw [t1]; exact hneT
+    rw [wp_bind, wp_of_run_ok h1]
+    simp only [hnf, if_false, pure_bind]
+    rw [wp_bind, unscan_wp, wp_bind]
+    refine wp_mono (parseCondition_print fuel (unsc s1) c k hc (hk.mono (by simp)) st1) ?_ (fun _ h => h)
+    intro c' s2 ⟨hc', st2⟩
+    subst hc'
+    have : ¬ (c'.isNone = true ∧ True) := by
+      intro ⟨h, _⟩
+      cases c' with
+      | none => exact hne ⟨rfl, rfl⟩
+      | some e => cases h
+    rw [wp_ite, if_neg this, wp_pure]
+    exact ⟨rfl, st2⟩
+  | cons n names =>
+    have hs' : RT.Stand s ([' '] ++ (Token.FROM.str ++ (' ' :: (qi n ++ (moreNames names ++ (whereText c ++ k)))))) := by
+      simpa [fromText] using hs.stand
+    obtain ⟨lx, s1, h1, t1, _, b1⟩ := scanIW_stand s [' '] Token.FROM.str _ .FROM [] Gap.blank hs'
+      (scansAs_kw .FROM _ (by decide +kernel) (WordEnd.blank _))
+    obtain ⟨s2, h2, st2⟩ := parseSources_names s1 n names _ hex (hkw.mono (by simp)) b1
+    rw [wp_bind, wp_of_run_ok h1]
+    simp only [t1, if_true]
+    rw [wp_bind, wp_of_run_ok h2]
+    simp only [sourceRestriction_names, pure_bind]
+    rw [wp_bind]
+    refine wp_mono (parseCondition_print fuel s2 c k hc (hk.mono (by simp)) st2) ?_ (fun _ h => h)
+    intro c' s3 ⟨hc', st3⟩
+    subst hc'
+    have : ¬ (c'.isNone = true ∧ (n :: names).map nameSrc = []) := by simp
+    rw [wp_ite, if_neg this, wp_pure]
+    exact ⟨rfl, st3⟩
+
+/-- **Print → parse, DELETE / DROP SERIES** `[FROM m1, …, mn] [WHERE cond]` (at least one of the two
+clauses, as the parser demands). The handler returns the statement and stands before `k` — or the
+fuel given was too small (`C04.parseStatement_fuel_suffices`: never at `fuelFor`).
+
+Partial: the sources are plain measurement names (no database / retention policy — which the
+handlers reject anyway —, no regex), printed by `QuoteIdent`; the condition is in the class
+`Printable` of C03 (`RT.rtOK false`: binary operators over references, string / integer / boolean
+literals, parentheses, regex operands; no calls, number, duration literals, wildcards, and not
+the negated-operand trees of the open finding). The continuation `k` starts (after at most one
+blank) with a token that is no operator and none of FROM `,` WHERE; it may be the end of input. -/
+theorem deleteLike_print_parse_partial (fuel : Nat) (s : PState) (names : List Str) (c : Option Expr) (k : Str)
+    (hex : ∀ m ∈ names, Expressible m) (hc : CondOK c) (hne : ¬ (c = none ∧ names = []))
+    (hk : Follow k [.FROM, .COMMA, .WHERE]) (hs : s.Before (deleteLikeText names c ++ k)) :
+    wp (runHandler fuel .parseDeleteStatement) s
+      (fun st s' => st = .deleteSeries (names.map nameSrc) c ∧ RT.Stand s' k) (· = .fuel) ∧
+    wp (runHandler fuel .parseDropSeriesStatement) s
+      (fun st s' => st = .dropSeries (names.map nameSrc) c ∧ RT.Stand s' k) (· = .fuel) := by
+  constructor
+  · simp only [runHandler]
+    rw [wp_bind]
+    refine wp_mono (parseDeleteLike_print fuel false s names c k hex hc hne hk hs) ?_ (fun _ h => h)
+    intro r s' ⟨hr, st⟩
+    subst hr
+    exact ⟨rfl, st⟩
+  · simp only [runHandler]
+    rw [wp_bind]
+    refine wp_mono (parseDeleteLike_print fuel true s names c k hex hc hne hk hs) ?_ (fun _ h => h)
+    intro r s' ⟨hr, st⟩
+    subst hr
+    exact ⟨rfl, st⟩
+
+/-- Non-vacuity: `DELETE FROM cpu, "my m" WHERE host = 'a' AND (x > -1 OR y =~ /^b/)`. -/
+def exCond : Option Expr := some (.binary .AND (.binary .EQ (.varRef "host".toList .Unknown) (.string ['a']))
+  (.paren (.binary .OR (.binary .GT (.varRef ['x'] .Unknown) (.integer (-1)))
+    (.binary .EQREGEX (.varRef ['y'] .Unknown) (.regex "^b".toList)))))
+def exNames : List Str := ["cpu".toList, "my m".toList]
+def exDeleteText : Str := deleteLikeText exNames exCond
+
+section
+-- the examples state `wp` of concrete runs: keep the elaborator from evaluating them
+attribute [local irreducible] wp
+
+example : exDeleteText = " FROM cpu, \"my m\" WHERE host = 'a' AND (x > -1 OR y =~ /^b/)".toList := by decide +kernel
+
+example : wp (runHandler 200 .parseDeleteStatement) (PState.init exDeleteText [] [])
+    (fun st s' => st = .deleteSeries (exNames.map nameSrc) exCond ∧ RT.Stand s' [eofRune]) (· = .fuel) :=
+  (deleteLike_print_parse_partial 200 (PState.init exDeleteText [] []) exNames exCond [eofRune] (by decide +kernel)
+    (by decide +kernel) (by decide +kernel) (Follow.eof _ (by decide)) (init_before exDeleteText (by decide +kernel))).1
+end
+
+/-- … and the fuel suffices on this input. -/
+example : (match (runHandler 200 .parseDeleteStatement).run (PState.init exDeleteText [] []) with
+    | .ok _ => true
+    | .error _ => false) = true := by decide +kernel
+
+/-! ### SHOW SERIES, SHOW TAG KEYS, SHOW FIELD KEYS, SHOW MEASUREMENTS -/
+
+/-- `[ON db] [FROM names] [WHERE cond] [LIMIT l] [OFFSET o]`. -/
+def showText (db : Str) (names : List Str) (c : Option Expr) (l o : Int) : Str :=
+  onDbText db ++ (fromText names ++ (whereText c ++ (posText .LIMIT l ++ posText .OFFSET o)))
+
+theorem showSeries_print_partial (db : Str) (names : List Str) (c : Option Expr) (l o : Int) (h : ∀ m ∈ names, m ≠ []) :
+    (Statement.showSeries db (names.map nameSrc) c [] l o).print = tx "SHOW SERIES" ++ showText db names c l o ∧
+    (Statement.showFieldKeys db (names.map nameSrc) [] l o).print = tx "SHOW FIELD KEYS" ++ showText db names none l o ∧
+    (Statement.showTagKeys db (names.map nameSrc) .ILLEGAL none c [] l o 0 0).print =
+      tx "SHOW TAG KEYS" ++ showText db names c l o ∧
+    (Statement.showMeasurements [] [] false false none c [] l o).print = tx "SHOW MEASUREMENTS" ++ showText [] [] c l o := by
+  have p1 : (Statement.showSeries db (names.map nameSrc) c [] l o).print =
+      tx "SHOW SERIES" ++ clauseOn db ++ clauseFrom (names.map nameSrc) ++ clauseWhere c ++ clauseOrderBy [] ++
+        clausePos "LIMIT" l ++ clausePos "OFFSET" o := rfl
+  have p2 : (Statement.showFieldKeys db (names.map nameSrc) [] l o).print =
+      tx "SHOW FIELD KEYS" ++ clauseOn db ++ clauseFrom (names.map nameSrc) ++ clauseOrderBy [] ++
+        clausePos "LIMIT" l ++ clausePos "OFFSET" o := rfl
+  have p3 : (Statement.showTagKeys db (names.map nameSrc) .ILLEGAL none c [] l o 0 0).print =
+      tx "SHOW TAG KEYS" ++ clauseOn db ++ clauseFrom (names.map nameSrc) ++ [] ++ clauseWhere c ++ clauseOrderBy [] ++
+        clausePos "LIMIT" l ++ clausePos "OFFSET" o ++ clausePos "SLIMIT" 0 ++ clausePos "SOFFSET" 0 := rfl
+  have p4 : (Statement.showMeasurements [] [] false false none c [] l o).print =
+      tx "SHOW MEASUREMENTS" ++ [] ++ [] ++ clauseWhere c ++ clauseOrderBy [] ++
+        clausePos "LIMIT" l ++ clausePos "OFFSET" o := rfl
+  have e0 : clauseOrderBy [] = [] := rfl
+  have e1 : clausePos "SLIMIT" 0 = [] := rfl
+  have e2 : clausePos "SOFFSET" 0 = [] := rfl
+  have e3 : onDbText [] = [] := rfl
+  rw [p1, p2, p3, p4, clauseFrom_names names h, clauseWhere_eq, clauseOn_onDbText, (clausePos_eq l).1,
+    (clausePos_eq o).2.1, e0, e1, e2]
+  simp only [showText, fromText, whereText, e3, List.append_assoc, List.append_nil, List.nil_append, and_self]
+
+/-- The tokens that continue one of these statements. -/
+def showStop : List Token := [.EXACT, .CARDINALITY, .ON, .FROM, .COMMA, .WITH, .WHERE, .ORDER, .LIMIT, .OFFSET, .SLIMIT, .SOFFSET]
+
+section
+variable (db : Str) (names : List Str) (c : Option Expr) (l o : Int) (k : Str)
+
+theorem show_follow (hk : Follow k showStop) :
+    Follow (posText .OFFSET o ++ k) [.EXACT, .CARDINALITY, .ON, .FROM, .COMMA, .WITH, .WHERE, .ORDER, .LIMIT, .SLIMIT, .SOFFSET] ∧
+    Follow (posText .LIMIT l ++ (posText .OFFSET o ++ k)) [.EXACT, .CARDINALITY, .ON, .FROM, .COMMA, .WITH, .WHERE, .ORDER] ∧
+    Follow (whereText c ++ (posText .LIMIT l ++ (posText .OFFSET o ++ k))) [.EXACT, .CARDINALITY, .ON, .FROM, .COMMA, .WITH] ∧
+    Follow (fromText names ++ (whereText c ++ (posText .LIMIT l ++ (posText .OFFSET o ++ k)))) [.EXACT, .CARDINALITY, .ON] := by
+  have g4 : Follow (posText .OFFSET o ++ k) [.EXACT, .CARDINALITY, .ON, .FROM, .COMMA, .WITH, .WHERE, .ORDER, .LIMIT, .SLIMIT, .SOFFSET] :=
+    Follow.opt (kwText_pos _ _) (by decide +kernel) rfl (by decide) (hk.mono (by decide))
+  have g3 : Follow (posText .LIMIT l ++ (posText .OFFSET o ++ k)) [.EXACT, .CARDINALITY, .ON, .FROM, .COMMA, .WITH, .WHERE, .ORDER] :=
+    Follow.opt (kwText_pos _ _) (by decide +kernel) rfl (by decide) (g4.mono (by decide))
+  have g2 : Follow (whereText c ++ (posText .LIMIT l ++ (posText .OFFSET o ++ k))) [.EXACT, .CARDINALITY, .ON, .FROM, .COMMA, .WITH] :=
+    Follow.opt (kwText_where _) (by decide +kernel) rfl (by decide) (g3.mono (by decide))
+  have g1 : Follow (fromText names ++ (whereText c ++ (posText .LIMIT l ++ (posText .OFFSET o ++ k)))) [.EXACT, .CARDINALITY, .ON] :=
+    Follow.opt (kwText_from _) (by decide +kernel) rfl (by decide) (g2.mono (by decide))
+  exact ⟨g4, g3, g2, g1⟩
+
+/-- **Print → parse, SHOW SERIES** `[ON db] [FROM m1, …] [WHERE cond] [LIMIT l] [OFFSET o]`.
+Partial: sources are plain measurement names, the condition is `Printable` (see
+`deleteLike_print_parse_partial`), and there is no `ORDER BY` clause (the parser accepts
+`ORDER BY [time] ASC|DESC`); limit and offset in the parser's range. -/
+theorem showSeries_print_parse_partial (fuel : Nat) (s : PState)
+    (hexdb : Expressible db) (hex : ∀ m ∈ names, Expressible m) (hc : CondOK c)
+    (hl : 0 ≤ l ∧ l ≤ maxInt64) (ho : 0 ≤ o ∧ o ≤ maxInt64) (hk : Follow k showStop)
+    (hs : s.Before (showText db names c l o ++ k)) :
+    wp (runHandler fuel .parseShowSeriesStatement) s
+      (fun st s' => st = .showSeries db (names.map nameSrc) c [] l o ∧ RT.Stand s' k) (· = .fuel) := by
+  obtain ⟨g4, g3, g2, g1⟩ := show_follow names c l o k hk
+  have g0 : Follow (onDbText db ++ (fromText names ++ (whereText c ++ (posText .LIMIT l ++ (posText .OFFSET o ++ k)))))
+      [.EXACT, .CARDINALITY] := Follow.opt (kwText_onDb _) (by decide +kernel) rfl (by decide) (g1.mono (by decide))
+  have hs0 : RT.Stand s (onDbText db ++ (fromText names ++ (whereText c ++ (posText .LIMIT l ++ (posText .OFFSET o ++ k))))) := by
+    have := hs.stand
+    simpa [showText, List.append_assoc] using this
+  obtain ⟨T1, hT1, hne1⟩ := g0.starts (t := .EXACT) (by simp)
+  obtain ⟨s1, h1, st1⟩ := optTok_absent_stand .EXACT s _ T1 hs0 hT1 hne1
+  obtain ⟨T2, hT2, hne2⟩ := g0.starts (t := .CARDINALITY) (by simp)
+  obtain ⟨s2, h2, st2⟩ := optTok_absent_stand .CARDINALITY s1 _ T2 st1 hT2 hne2
+  obtain ⟨s3, h3, st3⟩ := parseOnDb_stand s2 db _ hexdb (g1.mono (by decide)) st2
+  obtain ⟨s4, h4, st4⟩ := parseOptFrom_names s3 names _ hex (g2.mono (by decide)) st3
+  simp only [runHandler, parseShowSeries]
+  rw [wp_bind, wp_of_run_ok h1, wp_bind, wp_of_run_ok h2]
+  simp only [Bool.false_eq_true, if_false]
+  rw [wp_bind, wp_of_run_ok h3, wp_bind, wp_of_run_ok h4, wp_bind]
+  refine wp_mono (parseCondition_print fuel s4 c _ hc (g3.mono (by decide)) st4) ?_ (fun _ h => h)
+  intro c' s5 ⟨hc', st5⟩
+  subst hc'
+  obtain ⟨s6, h6, st6⟩ := parseOrderBy_absent s5 _ (g3.mono (by decide)) st5
+  obtain ⟨s7, h7, st7⟩ := parseOptTokInt_print .LIMIT (by decide +kernel) s6 l _ hl.1 hl.2 (g4.mono (by decide)) st6
+  obtain ⟨s8, h8, st8⟩ := parseOptTokInt_print .OFFSET (by decide +kernel) s7 o k ho.1 ho.2 (hk.mono (by decide)) st7
+  rw [wp_bind, wp_of_run_ok h6, wp_bind, wp_of_run_ok h7, wp_bind, wp_of_run_ok h8, wp_pure]
+  exact ⟨rfl, st8⟩
+
+/-- **Print → parse, SHOW FIELD KEYS** `[ON db] [FROM m1, …] [LIMIT l] [OFFSET o]` (no expression:
+the handler returns exactly, without a fuel alternative). Partial: plain measurement names, no `ORDER BY`. -/
+theorem showFieldKeys_print_parse_partial (fuel : Nat) (s : PState)
+    (hexdb : Expressible db) (hex : ∀ m ∈ names, Expressible m)
+    (hl : 0 ≤ l ∧ l ≤ maxInt64) (ho : 0 ≤ o ∧ o ≤ maxInt64) (hk : Follow k showStop)
+    (hs : s.Before (showText db names none l o ++ k)) :
+    ∃ s', (runHandler fuel .parseShowFieldKeysStatement).run s =
+      .ok (.showFieldKeys db (names.map nameSrc) [] l o, s') ∧ RT.Stand s' k := by
+  obtain ⟨g4, g3, g2, g1⟩ := show_follow names none l o k hk
+  have hs0 : RT.Stand s (onDbText db ++ (fromText names ++ (posText .LIMIT l ++ (posText .OFFSET o ++ k)))) := by
+    have := hs.stand
+    simpa [showText, whereText, List.append_assoc] using this
+  have g2' : Follow (posText .LIMIT l ++ (posText .OFFSET o ++ k)) [.EXACT, .CARDINALITY, .ON, .FROM, .COMMA, .WITH] := by
+    simpa [whereText] using g2
+  have g1' : Follow (fromText names ++ (posText .LIMIT l ++ (posText .OFFSET o ++ k))) [.EXACT, .CARDINALITY, .ON] := by
+    simpa [whereText] using g1
+  obtain ⟨s3, h3, st3⟩ := parseOnDb_stand s db _ hexdb (g1'.mono (by decide)) hs0
+  obtain ⟨s4, h4, st4⟩ := parseOptFrom_names s3 names _ hex (g2'.mono (by decide)) st3
+  obtain ⟨s6, h6, st6⟩ := parseOrderBy_absent s4 _ (g3.mono (by decide)) st4
+  obtain ⟨s7, h7, st7⟩ := parseOptTokInt_print .LIMIT (by decide +kernel) s6 l _ hl.1 hl.2 (g4.mono (by decide)) st6
+  obtain ⟨s8, h8, st8⟩ := parseOptTokInt_print .OFFSET (by decide +kernel) s7 o k ho.1 ho.2 (hk.mono (by decide)) st7
+  refine ⟨s8, ?_, st8⟩
+  simp only [runHandler, parseShowFieldKeys]
+  rw [P.run_bind _ _ _ _ _ h3, P.run_bind _ _ _ _ _ h4, P.run_bind _ _ _ _ _ h6, P.run_bind _ _ _ _ _ h7,
+    P.run_bind _ _ _ _ _ h8]
+  rfl
+
+/-- **Print → parse, SHOW TAG KEYS** `[ON db] [FROM m1, …] [WHERE cond] [LIMIT l] [OFFSET o]`.
+Partial: as `showSeries_print_parse_partial`; additionally no `WITH KEY` clause and no SLIMIT / SOFFSET. -/
+theorem showTagKeys_print_parse_partial (fuel : Nat) (s : PState)
+    (hexdb : Expressible db) (hex : ∀ m ∈ names, Expressible m) (hc : CondOK c)
+    (hl : 0 ≤ l ∧ l ≤ maxInt64) (ho : 0 ≤ o ∧ o ≤ maxInt64) (hk : Follow k showStop)
+    (hs : s.Before (showText db names c l o ++ k)) :
+    wp (runHandler fuel .parseShowTagKeysStatement) s
+      (fun st s' => st = .showTagKeys db (names.map nameSrc) .ILLEGAL none c [] l o 0 0 ∧ RT.Stand s' k) (· = .fuel) := by
+  obtain ⟨g4, g3, g2, g1⟩ := show_follow names c l o k hk
+  have hs0 : RT.Stand s (onDbText db ++ (fromText names ++ (whereText c ++ (posText .LIMIT l ++ (posText .OFFSET o ++ k))))) := by
+    have := hs.stand
+    simpa [showText, List.append_assoc] using this
+  obtain ⟨s3, h3, st3⟩ := parseOnDb_stand s db _ hexdb (g1.mono (by decide)) hs0
+  obtain ⟨s4, h4, st4⟩ := parseOptFrom_names s3 names _ hex (g2.mono (by decide)) st3
+  obtain ⟨lx, s5, h5, t5, st5⟩ := peek_stand s4 _ _ .WITH g2 (by decide) st4
+  simp only [runHandler, parseShowTagKeys]
+  rw [wp_bind, wp_of_run_ok h3, wp_bind, wp_of_run_ok h4, wp_bind, wp_of_run_ok h5, wp_bind, unscan_wp]
+  simp only [t5, if_false, pure_bind]
+  rw [wp_bind]
+  refine wp_mono (parseCondition_print fuel (unsc s5) c _ hc (g3.mono (by decide)) st5) ?_ (fun _ h => h)
+  intro c' s6 ⟨hc', st6⟩
+  subst hc'
+  obtain ⟨s7, h7, st7⟩ := parseOrderBy_absent s6 _ (g3.mono (by decide)) st6
+  obtain ⟨s8, h8, st8⟩ := parseOptTokInt_print .LIMIT (by decide +kernel) s7 l _ hl.1 hl.2 (g4.mono (by decide)) st7
+  obtain ⟨s9, h9, st9⟩ := parseOptTokInt_print .OFFSET (by decide +kernel) s8 o k ho.1 ho.2 (hk.mono (by decide)) st8
+  obtain ⟨s10, h10, st10⟩ := parseOptTokInt_print .SLIMIT (by decide +kernel) s9 0 k (by decide) (by decide)
+    (hk.mono (by decide)) (by simpa [posText] using st9)
+  obtain ⟨s11, h11, st11⟩ := parseOptTokInt_print .SOFFSET (by decide +kernel) s10 0 k (by decide) (by decide)
+    (hk.mono (by decide)) (by simpa [posText] using st10)
+  rw [wp_bind, wp_of_run_ok h7, wp_bind, wp_of_run_ok h8, wp_bind, wp_of_run_ok h9, wp_bind, wp_of_run_ok h10,
+    wp_bind, wp_of_run_ok h11, wp_pure]
+  exact ⟨rfl, st11⟩
+
+/-- **Print → parse, SHOW MEASUREMENTS** `[WHERE cond] [LIMIT l] [OFFSET o]`.
+Partial: no `ON db[.rp]`, no `WITH MEASUREMENT`, no `ORDER BY`; the condition is `Printable`. -/
+theorem showMeasurements_print_parse_partial (fuel : Nat) (s : PState) (hc : CondOK c)
+    (hl : 0 ≤ l ∧ l ≤ maxInt64) (ho : 0 ≤ o ∧ o ≤ maxInt64) (hk : Follow k showStop)
+    (hs : s.Before (showText [] [] c l o ++ k)) :
+    wp (runHandler fuel .parseShowMeasurementsStatement) s
+      (fun st s' => st = .showMeasurements [] [] false false none c [] l o ∧ RT.Stand s' k) (· = .fuel) := by
+  obtain ⟨g4, g3, g2, g1⟩ := show_follow [] c l o k hk
+  have hs0 : RT.Stand s (whereText c ++ (posText .LIMIT l ++ (posText .OFFSET o ++ k))) := by
+    have := hs.stand
+    simpa [showText, onDbText, fromText, List.append_assoc] using this
+  obtain ⟨T1, hT1, hne1⟩ := g2.starts (t := .ON) (by simp)
+  obtain ⟨s1, h1, st1⟩ := optTok_absent_stand .ON s _ T1 hs0 hT1 hne1
+  obtain ⟨T2, hT2, hne2⟩ := g2.starts (t := .WITH) (by simp)
+  obtain ⟨s2, h2, st2⟩ := optTok_absent_stand .WITH s1 _ T2 st1 hT2 hne2
+  simp only [runHandler, parseShowMeasurements]
+  rw [wp_bind, wp_bind, wp_of_run_ok h1]
+  simp only [Bool.false_eq_true, if_false]
+  rw [wp_pure, wp_bind, wp_bind, wp_of_run_ok h2]
+  simp only [Bool.false_eq_true, if_false]
+  rw [wp_pure, wp_bind]
+  refine wp_mono (parseCondition_print fuel s2 c _ hc (g3.mono (by decide)) st2) ?_ (fun _ h => h)
+  intro c' s5 ⟨hc', st5⟩
+  subst hc'
+  obtain ⟨s6, h6, st6⟩ := parseOrderBy_absent s5 _ (g3.mono (by decide)) st5
+  obtain ⟨s7, h7, st7⟩ := parseOptTokInt_print .LIMIT (by decide +kernel) s6 l _ hl.1 hl.2 (g4.mono (by decide)) st6
+  obtain ⟨s8, h8, st8⟩ := parseOptTokInt_print .OFFSET (by decide +kernel) s7 o k ho.1 ho.2 (hk.mono (by decide)) st7
+  rw [wp_bind, wp_of_run_ok h6, wp_bind, wp_of_run_ok h7, wp_bind, wp_of_run_ok h8, wp_pure]
+  exact ⟨rfl, st8⟩
+
+end
+
+/-- Non-vacuity: `SHOW SERIES ON "my db" FROM cpu, "my m" WHERE … LIMIT 10 OFFSET 3`, `SHOW FIELD KEYS FROM cpu, "my m" LIMIT 5`. -/
+def exShowText : Str := showText "my db".toList exNames exCond 10 3
+def exFieldKeysText : Str := showText [] exNames none 5 0
+
+example : exShowText =
+    " ON \"my db\" FROM cpu, \"my m\" WHERE host = 'a' AND (x > -1 OR y =~ /^b/) LIMIT 10 OFFSET 3".toList ∧
+    exFieldKeysText = " FROM cpu, \"my m\" LIMIT 5".toList := by decide +kernel
+
+section
+attribute [local irreducible] wp
+example : wp (runHandler 200 .parseShowSeriesStatement) (PState.init exShowText [] [])
+    (fun st s' => st = .showSeries "my db".toList (exNames.map nameSrc) exCond [] 10 3 ∧ RT.Stand s' [eofRune])
+    (· = .fuel) :=
+  showSeries_print_parse_partial "my db".toList exNames exCond 10 3 [eofRune] 200 (PState.init exShowText [] [])
+    (by decide +kernel) (by decide +kernel) (by decide +kernel) (by decide) (by decide) (Follow.eof _ (by decide))
+    (init_before exShowText (by decide +kernel))
+
+example : wp (runHandler 200 .parseShowTagKeysStatement) (PState.init exShowText [] [])
+    (fun st s' => st = .showTagKeys "my db".toList (exNames.map nameSrc) .ILLEGAL none exCond [] 10 3 0 0 ∧
+      RT.Stand s' [eofRune]) (· = .fuel) :=
+  showTagKeys_print_parse_partial "my db".toList exNames exCond 10 3 [eofRune] 200 (PState.init exShowText [] [])
+    (by decide +kernel) (by decide +kernel) (by decide +kernel) (by decide) (by decide) (Follow.eof _ (by decide))
+    (init_before exShowText (by decide +kernel))
+end
+
+example : ∃ s', (runHandler 10 .parseShowFieldKeysStatement).run (PState.init exFieldKeysText [] []) =
+    .ok (.showFieldKeys [] (exNames.map nameSrc) [] 5 0, s') := by
+  obtain ⟨s', h, _⟩ := showFieldKeys_print_parse_partial [] exNames 5 0 [eofRune] 10 (PState.init exFieldKeysText [] [])
+    (by decide +kernel) (by decide +kernel) (by decide) (by decide) (Follow.eof _ (by decide))
+    (init_before exFieldKeysText (by decide +kernel))
+  exact ⟨s', h⟩
+
+example : (match (runHandler 200 .parseShowSeriesStatement).run (PState.init exShowText [] []) with
+    | .ok _ => true
+    | .error _ => false) = true := by decide +kernel
+
+/-! ### SELECT: a first class of statements -/
+
+/-- `SELECT f, fs… FROM n, names… [WHERE c] [LIMIT l] [OFFSET o] [SLIMIT sl] [SOFFSET so]` as the parser builds it
+(no target, no GROUP BY, no fill, no ORDER BY, no time zone; a raw query since the fields contain no call). -/
+def simpleSelect (f : Field) (fs : List Field) (n : Str) (names : List Str) (c : Option Expr) (l o sl so : Int) :
+    SelectStmt :=
+  .mk (f :: fs) none [] ((n :: names).map nameSrc) c [] l o sl so true .null .none none [] false false [] false
+
+/-- The statements the theorem covers (decidable): fields are printable expressions (C03's class,
+`RT.rtOK false`) that contain none of the comparison / logical operators `parseField` rejects, with any
+(expressible) alias; sources are non-empty expressible names; the condition is printable; the four
+limits are in the parser's range. -/
+def SimpleSelect (f : Field) (fs : List Field) (n : Str) (names : List Str) (c : Option Expr) (l o sl so : Int) : Prop :=
+  (∀ g ∈ f :: fs, FieldOK g) ∧ (∀ m ∈ n :: names, Expressible m ∧ m ≠ []) ∧ CondOK c ∧
+  (0 ≤ l ∧ l ≤ maxInt64) ∧ (0 ≤ o ∧ o ≤ maxInt64) ∧ (0 ≤ sl ∧ sl ≤ maxInt64) ∧ (0 ≤ so ∧ so ≤ maxInt64)
+
+instance (f : Field) (fs : List Field) (n : Str) (names : List Str) (c : Option Expr) (l o sl so : Int) :
+    Decidable (SimpleSelect f fs n names c l o sl so) := by unfold SimpleSelect; exact inferInstance
+
+/-- What is printed after the keyword SELECT. -/
+def selectText (f : Field) (fs : List Field) (n : Str) (names : List Str) (c : Option Expr) (l o sl so : Int) : Str :=
+  ' ' :: (f.print ++ (moreFields fs ++ (fromText (n :: names) ++ (whereText c ++ (posText .LIMIT l ++
+    (posText .OFFSET o ++ (posText .SLIMIT sl ++ posText .SOFFSET so)))))))
+
+theorem select_print_partial (f : Field) (fs : List Field) (n : Str) (names : List Str) (c : Option Expr)
+    (l o sl so : Int) (h : ∀ m ∈ n :: names, m ≠ []) :
+    (Statement.select (simpleSelect f fs n names c l o sl so)).print = tx "SELECT" ++ selectText f fs n names c l o sl so := by
+  have p1 : (Statement.select (simpleSelect f fs n names c l o sl so)).print =
+      tx "SELECT " ++ joinWith (tx ", ") ((f :: fs).map Field.print) ++ [] ++
+        (tx " FROM " ++ printSources ((n :: names).map nameSrc)) ++ clauseWhere c ++ clauseGroupBy [] ++
+        printFill .null .none ++ clauseOrderBy [] ++ clausePos "LIMIT" l ++ clausePos "OFFSET" o ++
+        clausePos "SLIMIT" sl ++ clausePos "SOFFSET" so ++ [] := rfl
+  have e0 : clauseOrderBy [] = [] := rfl
+  have e1 : clauseGroupBy [] = [] := rfl
+  have e2 : printFill .null .none = [] := rfl
+  have e3 : tx "SELECT " = tx "SELECT" ++ [' '] := by decide +kernel
+  have e4 : tx " FROM " = ' ' :: (Token.FROM.str ++ [' ']) := by decide +kernel
+  rw [p1, joinFields, printSources_names n names h, clauseWhere_eq, (clausePos_eq l).1, (clausePos_eq o).2.1,
+    (clausePos_eq sl).2.2.1, (clausePos_eq so).2.2.2, e0, e1, e2, e3, e4]
+  simp only [selectText, fromText, List.append_assoc, List.append_nil, List.nil_append, List.cons_append]
+
+theorem hasCall_false (e : Expr) (h : RT.rtOK false e = true) : e.hasCall = false := by
+  fun_induction Expr.hasCall e with
+  | case1 n a => simp [RT.rtOK] at h
+  | case2 op l r ihl ihr =>
+    obtain ⟨_, h3, h4, _, _⟩ := RT.rtOK_binary h
+    rw [ihl h3, Bool.false_or]
+    split at h4
+    · obtain ⟨src, rfl, _⟩ := RT.regexLitB_elim h4
+      rfl
+    · exact ihr h4
+  | case3 e ih => rw [RT.rtOK] at h; exact ih h
+  | case4 e h1 h2 h3 => rfl
+
+/-- The tokens that continue a SELECT statement of this class. -/
+def selectStop : List Token :=
+  [.AS, .COMMA, .INTO, .FROM, .WHERE, .GROUP, .IDENT, .ORDER, .LIMIT, .OFFSET, .SLIMIT, .SOFFSET]
+
+/-- **Print → parse, SELECT** (first class). `parseSelectStatement` on the text printed after the
+keyword `SELECT`, followed by `k`, returns exactly the statement and stands before `k` — or the
+fuel was too small.
+
+Partial — the class `SimpleSelect`: fields are `Printable` expressions without a call (hence a
+raw query), wildcard, number or duration literal, each with an optional alias; sources are plain
+measurement names; optional WHERE (printable condition), LIMIT, OFFSET, SLIMIT, SOFFSET. Not
+covered (all producible by the parser): INTO, subqueries, regex / qualified sources, GROUP BY, fill(),
+ORDER BY, TZ(), calls and the negated-operand trees of the open finding. The continuation `k` starts
+(after at most one blank) with a token that is no operator, no identifier and no keyword that
+continues the statement (`selectStop`); the end of the input and `)` qualify. -/
+theorem select_print_parse_partial (fuel : Nat) (s : PState) (f : Field) (fs : List Field) (n : Str) (names : List Str)
+    (c : Option Expr) (l o sl so : Int) (k : Str) (hok : SimpleSelect f fs n names c l o sl so)
+    (hk : Follow k selectStop) (hs : s.Before (selectText f fs n names c l o sl so ++ k)) :
+    wp (runHandler (fuel + 1) .parseSelectStatement_targetNotRequired) s
+      (fun st s' => st = .select (simpleSelect f fs n names c l o sl so) ∧ RT.Stand s' k) (· = .fuel) := by
+  obtain ⟨hf, hn, hc, hl, ho, hsl, hso⟩ := hok
+  have g7 : Follow (posText .SOFFSET so ++ k) [.AS, .COMMA, .INTO, .FROM, .WHERE, .GROUP, .IDENT, .ORDER, .LIMIT, .OFFSET, .SLIMIT] :=
+    Follow.opt (kwText_pos _ _) (by decide +kernel) rfl (by decide) (hk.mono (by decide))
+  have g6 : Follow (posText .SLIMIT sl ++ (posText .SOFFSET so ++ k))
+      [.AS, .COMMA, .INTO, .FROM, .WHERE, .GROUP, .IDENT, .ORDER, .LIMIT, .OFFSET] :=
+    Follow.opt (kwText_pos _ _) (by decide +kernel) rfl (by decide) (g7.mono (by decide))
+  have g5 : Follow (posText .OFFSET o ++ (posText .SLIMIT sl ++ (posText .SOFFSET so ++ k)))
+      [.AS, .COMMA, .INTO, .FROM, .WHERE, .GROUP, .IDENT, .ORDER, .LIMIT] :=
+    Follow.opt (kwText_pos _ _) (by decide +kernel) rfl (by decide) (g6.mono (by decide))
+  have g4 : Follow (posText .LIMIT l ++ (posText .OFFSET o ++ (posText .SLIMIT sl ++ (posText .SOFFSET so ++ k))))
+      [.AS, .COMMA, .INTO, .FROM, .WHERE, .GROUP, .IDENT, .ORDER] :=
+    Follow.opt (kwText_pos _ _) (by decide +kernel) rfl (by decide) (g5.mono (by decide))
+  have g3 : Follow (whereText c ++ (posText .LIMIT l ++ (posText .OFFSET o ++ (posText .SLIMIT sl ++
+      (posText .SOFFSET so ++ k))))) [.AS, .COMMA, .INTO, .FROM] :=
+    Follow.opt (kwText_where _) (by decide +kernel) rfl (by decide) (g4.mono (by decide))
+  have g2 : Follow (fromText (n :: names) ++ (whereText c ++ (posText .LIMIT l ++ (posText .OFFSET o ++
+      (posText .SLIMIT sl ++ (posText .SOFFSET so ++ k)))))) [.AS, .COMMA, .INTO] :=
+    Follow.opt (kwText_from _) (by decide +kernel) rfl (by decide) (g3.mono (by decide))
+  have hs0 : s.Before (' ' :: (f.print ++ (moreFields fs ++ (fromText (n :: names) ++ (whereText c ++ (posText .LIMIT l ++
+      (posText .OFFSET o ++ (posText .SLIMIT sl ++ (posText .SOFFSET so ++ k))))))))) := by
+    simpa [selectText, List.append_assoc] using hs
+  simp only [runHandler, parseSelect, parseSelectBody]
+  rw [wp_bind, wp_bind]
+  refine wp_mono (parseFields_print fuel s f fs _ hf (g2.mono (by decide)) hs0) ?_ (fun _ h => h)
+  intro flds s1 ⟨hflds, st1⟩
+  subst hflds
+  obtain ⟨s2, h2, st2⟩ := parseTarget_absent s1 _ (g2.mono (by decide)) st1
+  have st2' : RT.Stand s2 ([' '] ++ (Token.FROM.str ++ (' ' :: (qi n ++ (moreNames names ++ (whereText c ++
+      (posText .LIMIT l ++ (posText .OFFSET o ++ (posText .SLIMIT sl ++ (posText .SOFFSET so ++ k)))))))))) := by
+    simpa [fromText, List.append_assoc] using st2
+  obtain ⟨lx3, s3, h3, t3, _, b3⟩ := scanIW_stand s2 [' '] Token.FROM.str _ .FROM [] Gap.blank st2'
+    (scansAs_kw .FROM _ (by decide +kernel) (WordEnd.blank _))
+  have h3' : (expectTok .FROM ["FROM"]).run s2 = .ok ((), s3) := by
+    unfold expectTok
+    rw [P.run_bind _ _ _ _ _ h3]
+    simp [t3, StateT.run, pure, StateT.pure, Except.pure]
+  obtain ⟨s4, h4, st4⟩ := parseSourcesWith_names (some (parseSelect fuel false)) s3 n names _ (fun m hm => (hn m hm).1)
+    (g3.mono (by decide)) b3
+  rw [wp_bind, wp_of_run_ok h2, wp_bind, wp_of_run_ok h3', wp_bind, wp_of_run_ok h4, wp_bind]
+  refine wp_mono (parseCondition_print fuel s4 c _ hc (g4.mono (by decide)) st4) ?_ (fun _ h => h)
+  intro c' s5 ⟨hc', st5⟩
+  subst hc'
+  obtain ⟨s6, h6, st6⟩ := parseDimensions_absent fuel s5 _ (g4.mono (by decide)) st5
+  obtain ⟨s7, h7, st7⟩ := parseFill_absent fuel s6 _ (g4.mono (by decide)) st6
+  obtain ⟨s8, h8, st8⟩ := parseOrderBy_absent s7 _ (g4.mono (by decide)) st7
+  obtain ⟨s9, h9, st9⟩ := parseOptTokInt_print .LIMIT (by decide +kernel) s8 l _ hl.1 hl.2 (g5.mono (by decide)) st8
+  obtain ⟨s10, h10, st10⟩ := parseOptTokInt_print .OFFSET (by decide +kernel) s9 o _ ho.1 ho.2 (g6.mono (by decide)) st9
+  obtain ⟨s11, h11, st11⟩ := parseOptTokInt_print .SLIMIT (by decide +kernel) s10 sl _ hsl.1 hsl.2 (g7.mono (by decide)) st10
+  obtain ⟨s12, h12, st12⟩ := parseOptTokInt_print .SOFFSET (by decide +kernel) s11 so k hso.1 hso.2 (hk.mono (by decide)) st11
+  obtain ⟨s13, h13, st13⟩ := parseLocation_absent fuel s12 k (hk.mono (by decide)) st12
+  rw [wp_bind, wp_of_run_ok h6, wp_bind, wp_of_run_ok h7]
+  simp only []
+  rw [wp_bind, wp_of_run_ok h8, wp_bind, wp_of_run_ok h9, wp_bind, wp_of_run_ok h10, wp_bind, wp_of_run_ok h11,
+    wp_bind, wp_of_run_ok h12, wp_bind, wp_of_run_ok h13, wp_pure, wp_pure]
+  refine ⟨?_, st13⟩
+  have hraw : (!(f :: fs).any fun g => g.expr.hasCall) = true := by
+    rw [Bool.not_eq_true', List.any_eq_false]
+    intro g hg
+    rw [hasCall_false g.expr (hf g hg).1]
+    simp
+  rw [hraw]
+  rfl
+
+/-- Non-vacuity: `SELECT a + 1 AS "x y", b * (c - 2), "select" FROM cpu, "my m" WHERE … LIMIT 10 OFFSET 3 SLIMIT 2`. -/
+def exF1 : Field := ⟨.binary .ADD (.varRef ['a'] .Unknown) (.integer 1), "x y".toList⟩
+def exFs : List Field :=
+  [⟨.binary .MUL (.varRef ['b'] .Unknown) (.paren (.binary .SUB (.varRef ['c'] .Unknown) (.integer 2))), []⟩,
+   ⟨.varRef "select".toList .Unknown, []⟩]
+def exSelectText : Str := selectText exF1 exFs "cpu".toList ["my m".toList] exCond 10 3 2 0
+
+example : exSelectText = (" a + 1 AS \"x y\", b * (c - 2), \"select\" FROM cpu, \"my m\" " ++
+    "WHERE host = 'a' AND (x > -1 OR y =~ /^b/) LIMIT 10 OFFSET 3 SLIMIT 2").toList := by decide +kernel
+
+example : SimpleSelect exF1 exFs "cpu".toList ["my m".toList] exCond 10 3 2 0 := by decide +kernel
+
+-- a field with a comparison is not in the class (the parser rejects it), nor is a call
+example : ¬ FieldOK ⟨.binary .GT (.varRef ['a'] .Unknown) (.integer 1), []⟩ := by decide +kernel
+example : ¬ FieldOK ⟨.call "mean".toList [.varRef ['a'] .Unknown], []⟩ := by decide +kernel
+
+section
+attribute [local irreducible] wp
+example : wp (runHandler 201 .parseSelectStatement_targetNotRequired) (PState.init exSelectText [] [])
+    (fun st s' => st = .select (simpleSelect exF1 exFs "cpu".toList ["my m".toList] exCond 10 3 2 0) ∧
+      RT.Stand s' [eofRune]) (· = .fuel) :=
+  select_print_parse_partial 200 (PState.init exSelectText [] []) exF1 exFs "cpu".toList ["my m".toList] exCond 10 3 2 0
+    [eofRune] (by decide +kernel) (Follow.eof _ (by decide)) (init_before exSelectText (by decide +kernel))
+end
+
+example : (match (runHandler 201 .parseSelectStatement_targetNotRequired).run (PState.init exSelectText [] []) with
+    | .ok _ => true
+    | .error _ => false) = true := by decide +kernel
 
 /-! ## passwords -/
 
